@@ -113,6 +113,11 @@ func main() {
 			"dave@Example.COM", "dave@example.com", "K@kite.org", "\u212a@kite.org"} {
 			atts = append(atts, attempt{"plain", u, "pw", 200})
 		}
+		// decorated local parts next to the plain one: a sub-address (`+detail`), dots, another letter case — each is an address
+		// of its own: what the backend verified is what the session is bound to
+		for _, u := range []string{"erin@example.com", "erin+mallory@example.com", "erin+@example.com", "erin+a+b@example.com", "e.r.i.n@example.com", "Erin@example.com", "frank", "frank+tag", "+frank"} {
+			atts = append(atts, attempt{"plain", u, "pw", 200})
+		}
 		n := 400
 		if o.Thorough {
 			n = 12000
